@@ -1723,7 +1723,11 @@ func (r *Raft) commitLoop() {
 
 			// Check whether the majority of nodes in the cluster agree on the entry.
 			// If they do, it is safe to commit.
-			matches := 1
+			// This node's own copy counts only if it is a voting member itself.
+			matches := 0
+			if r.isVoter(r.id) {
+				matches = 1
+			}
 			for id, follower := range r.followers {
 				// Ignore this node and any nodes which are not voting members.
 				if id == r.id || !r.configuration.IsVoter[id] {
